@@ -815,13 +815,17 @@ class Vector3d(Object3d):
         else:
             S = symmetry
 
+        # Which sector a vector lies in depends on its direction only:
+        # the tests below use tolerances that assume unit vectors
+        v_unit = v.unit
+
         rotated_centers = S * center
-        closeness = v.dot_outer(rotated_centers).round(12)
+        closeness = v_unit.dot_outer(rotated_centers).round(12)
         idx_max = np.argmax(closeness, axis=-1)
         v2 = ~S[idx_max] * v
 
         # Keep the ones already inside the sector
-        mask = v <= fs
+        mask = v_unit <= fs
         v2[mask] = v[mask]
 
         return v2
